@@ -16,7 +16,7 @@ pub fn generate(rng: &mut Rng, tier: Tier, stats: &mut GenStats) -> Scenario {
     let tree = g.tree(links);
     let model = Model::from_tree(&tree).unwrap();
     let cwd = g.pick_dir(&model, 30);
-    let nw = if g.rng.chance(1, 6) { 2 } else { 1 };
+    let nw = if g.rng.chance(1, 6) { if tier == Tier::Thorough && g.rng.chance(1, 3) { 3 } else { 2 } } else { 1 };
     let has_links = tree.iter().any(|n| matches!(n.kind, Kind::Link { .. }));
     let mut walkers = Vec::new();
     for _ in 0..nw {
@@ -69,7 +69,12 @@ pub fn generate(rng: &mut Rng, tier: Tier, stats: &mut GenStats) -> Scenario {
             _ => {},
         }
     }
-    let schedule = interleaving(g.rng, nw, tree.len());
+    let mut schedule = interleaving(g.rng, nw, tree.len());
+    // sometimes one of two walkers is dropped half-way: the other must not notice
+    if nw == 2 && !schedule.is_empty() && g.rng.chance(1, 4) {
+        let at = g.rng.below(schedule.len());
+        schedule.insert(at, Step::D(g.rng.below(2)));
+    }
     Scenario {
         prop: "C02".into(),
         seed: 0,
@@ -122,7 +127,12 @@ pub fn check(sc: &Scenario, env: &mut Env) -> Result<Outcome, HarnessError> {
                 actual.remove(i);
             }
         }
-        let (missing, extra) = diff_sorted(&actual, &expected);
+        let (mut missing, extra) = diff_sorted(&actual, &expected);
+        if view.dropped {
+            // a dropped walk is judged on what it produced so far: nothing wrong, nothing twice
+            missing.clear();
+            out.probe("walker:dropped-before-exhaustion");
+        }
         if !missing.is_empty() || !extra.is_empty() {
             let mut items: Vec<String> = missing.iter().map(|m| format!("missing:{}", m)).collect();
             items.extend(extra.iter().map(|m| format!("extra:{}", m)));
@@ -144,7 +154,7 @@ pub fn check(sc: &Scenario, env: &mut Env) -> Result<Outcome, HarnessError> {
             );
         }
         // all-or-nothing over entered directories, from the closure-free feed
-        if w.taps {
+        if w.taps && !view.dropped {
             partial_clause("C02", "partial", wi, &view, &visits, &mut out);
         }
         // a fault-free world yields no error (MAY: a walk root that does not exist)
